@@ -265,6 +265,8 @@ def write_evidence(pid, tier, seed, coverage, assumptions, wall, violations=0, l
               assumptions=assumptions, wall_s=round(wall, 2), violations=violations)
     # evidence/ is only written for runs against /repo itself; experiments with LUNA_REPO go to _build/
     d = (VERIF / "evidence") if str(REPO) == "/repo" else (BUILD / "evidence")
+    if os.environ.get("VERIF_EVIDENCE_DIR"):           # bulk runs that must not touch the committed evidence
+        d = pathlib.Path(os.environ["VERIF_EVIDENCE_DIR"])
     d.mkdir(parents=True, exist_ok=True)
     (d / f"{pid}.json").write_text(json.dumps(ev, indent=1, default=str) + "\n")
 
